@@ -542,7 +542,8 @@ func generate(o *options) (*runOutput, error) {
 				}
 			}
 		}
-		if o.prop != "ANY" && !contractMentions(eff, o.prop) {
+		terminationCone := hasProp(specs.TerminationProps, o.prop) && (eff.Terminates || len(eff.Decreases) > 0)
+		if o.prop != "ANY" && !contractMentions(eff, o.prop) && !terminationCone {
 			continue
 		}
 		if o.fn != "" && !strings.Contains(key, o.fn) {
